@@ -80,6 +80,22 @@ def _write_job(a):
     path, filters, password, size, texture, position = a
     import py7zr
     base = _rss()
+    if filters == "ref:deflate64":
+        # py7zr cannot write Deflate64: the archive comes from the independent reference writer (peak memory of
+        # this step says nothing about py7zr and is not judged)
+        import random
+        import refwriter
+        import checks.c06 as c06
+        size = min(size, 512 << 20)
+        members = [{"name": "small0.txt", "kind": "file", "data": b"small before"}, {"name": "big.bin", "kind": "file", "data": LazySource(size, texture).read()},
+                   {"name": "small1.txt", "kind": "file", "data": b"small after"}]
+        for m in members:
+            m.update({"attr": c06.FILE_ATTR, "mtime": 130000000000000000, "ctime": None, "atime": None})
+        lay = {"folders": [("deflate64", [0, 1, 2])], "crc_place": "sub", "nums_omitted": True, "packcrc": False, "packpos": 0, "dummy": 0,
+               "emptyfile_vector": True, "header": "raw", "password": None, "nonminimal": False}
+        with open(path, "wb") as f:
+            f.write(refwriter.build(members, lay, random.Random(1)))
+        return base, base, os.path.getsize(path)
     kw = {"filters": filters}
     if password:
         kw["password"] = password
@@ -130,7 +146,8 @@ def run(ctx):
            ("ARM+LZMA", [{"id": arclib.FILTER_ARM}, {"id": arclib.FILTER_LZMA, "preset": 1}], "zeros"),
            # medium-ratio members: the packed stream spans many input blocks, every block expands a little
            ("ZStandard-mid", [{"id": arclib.FILTER_ZSTD, "level": 1}], "mid"),
-           ("Deflate-mid", [{"id": arclib.FILTER_DEFLATE}], "mid")]
+           ("Deflate-mid", [{"id": arclib.FILTER_DEFLATE}], "mid"),
+           ("Deflate64", "ref:deflate64", "zeros")]
     if ctx.thorough:
         fam += [("LZMA", [{"id": arclib.FILTER_LZMA, "preset": 1}], "zeros"),
                 ("Brotli", [{"id": arclib.FILTER_BROTLI, "level": 1}], "zeros"),
